@@ -392,6 +392,10 @@ void gen(uint64_t seed, int tier, sim::Plan &p) {
     for (int i = 2; i <= total; i++) if (r.chance(0.35)) launcher[i] = (int)r.range(1, i - 1);
     auto body_ops = [&](int t) {
         int n = (int)r.range(0, 5);
+        if (r.chance(0.01)) { // many at-exit callbacks on one thread
+            int m = (int)r.range(30, 80);
+            for (int k = 0; k < m; k++) { sim::Op o; o.thr = t; o.kind = OP_ATEXIT; o.a = r.chance(0.05); p.ops.push_back(o); }
+        }
         for (int k = 0; k < n; k++) {
             sim::Op o; o.thr = t;
             uint64_t w = r.below(10);
